@@ -236,10 +236,16 @@ func (r *Registry) LoadOutputs(
 		tasks = append(tasks, task)
 	}
 
+	// Wait for every load task, also after one of them failed: a load that is still
+	// restoring an output must not run alongside the re-execution of the target.
+	var loadErr error
 	for _, task := range tasks {
-		if err := task.Wait(); err != nil {
-			return err
+		if err := task.Wait(); err != nil && loadErr == nil {
+			loadErr = err
 		}
+	}
+	if loadErr != nil {
+		return loadErr
 	}
 
 	logger.Debugf("%s: outputs loaded", target.Label)
